@@ -572,6 +572,10 @@ func (r *pxRig) do(a PAct) string {
 			return "HRelease"
 		}
 		return ""
+	case "tick": // a step of its own without any action: D milliseconds of virtual time go by
+		time.Sleep(time.Duration(a.V) * time.Millisecond)
+		synctest.Wait()
+		return "TICK"
 	case "wait": // inside a group: let the proxy settle before the next action of the group (no step boundary)
 		synctest.Wait()
 		if r.hterms {
@@ -781,6 +785,10 @@ func runPxScenario(t *testing.T, idx int, kind string, sc pxScenario, em *Emitte
 			var terms []string
 			for _, a := range group {
 				if term := rig.do(a); term != "" {
+					if term == "TICK" {
+						terms = append(terms, term)
+						continue
+					}
 					if rig.hterms && !strings.HasPrefix(term, "H") {
 						term = "HA (" + term + ")"
 					}
@@ -800,6 +808,9 @@ func runPxScenario(t *testing.T, idx int, kind string, sc pxScenario, em *Emitte
 			o := rig.snapshot()
 			drops += o.Drops
 			obsList = append(obsList, o)
+			if len(terms) == 1 && terms[0] == "TICK" {
+				terms = nil // the step has no action
+			}
 			coqSteps = append(coqSteps, coqList(terms))
 			coqObs = append(coqObs, o.coq())
 			// then a tick of virtual time: the proxy has no timer, nothing may happen. If something does (a retry
